@@ -352,6 +352,15 @@ func (h *harness) run() {
 		call := func() {
 			ctx, cancel := context.WithTimeout(context.Background(), 10*time.Second)
 			defer cancel()
+			if c := st.Int("cancel_us"); c > 0 {
+				// fault: the caller cancels its own context while sub-calls are pending
+				d := s.Delay(fmt.Sprintf("cancel:%d", id), 0, time.Duration(c)*time.Microsecond)
+				go func() {
+					time.Sleep(d)
+					cancel()
+				}()
+				s.Count("fault.caller-cancels", 1)
+			}
 			h.mu.Lock()
 			h.seq++
 			top.start = h.seq
